@@ -173,23 +173,6 @@ func (sc *SCtx) ident(name string) (Val, types.Type, error) {
 	if v, ok := sc.vars[name]; ok {
 		return v, sc.vtypes[name], nil
 	}
-	if name == "result" {
-		if len(sc.results) == 1 {
-			return Val{T: e.asTerm(sc.st, sc.results[0])}, sc.resTypes.At(0).Type(), nil
-		}
-		if len(sc.results) > 1 {
-			return Val{Tuple: sc.results}, sc.resTypes, nil
-		}
-		return Val{}, nil, fmt.Errorf("result used but function has no result here")
-	}
-	// named results
-	if sc.resTypes != nil {
-		for i := 0; i < sc.resTypes.Len(); i++ {
-			if sc.resTypes.At(i).Name() == name && i < len(sc.results) {
-				return Val{T: e.asTerm(sc.st, sc.results[i])}, sc.resTypes.At(i).Type(), nil
-			}
-		}
-	}
 	if sc.locals {
 		base, ord := name, 0
 		if i := strings.Index(name, "#"); i > 0 {
@@ -206,6 +189,23 @@ func (sc *SCtx) ident(name string) (Val, types.Type, error) {
 			}
 			v := e.loadVal(sc.st, pv, t)
 			return v, t, nil
+		}
+	}
+	if name == "result" {
+		if len(sc.results) == 1 {
+			return Val{T: e.asTerm(sc.st, sc.results[0])}, sc.resTypes.At(0).Type(), nil
+		}
+		if len(sc.results) > 1 {
+			return Val{Tuple: sc.results}, sc.resTypes, nil
+		}
+		return Val{}, nil, fmt.Errorf("result used but function has no result here")
+	}
+	// named results
+	if sc.resTypes != nil {
+		for i := 0; i < sc.resTypes.Len(); i++ {
+			if sc.resTypes.At(i).Name() == name && i < len(sc.results) {
+				return Val{T: e.asTerm(sc.st, sc.results[i])}, sc.resTypes.At(i).Type(), nil
+			}
 		}
 	}
 	// ghost variables
@@ -532,6 +532,20 @@ func (sc *SCtx) call(x SCall) (Val, types.Type, error) {
 			return tv(e.mapLen(sc.st, u, v.T)), nil, nil
 		}
 		return Val{}, nil, fmt.Errorf("len of %v", t)
+	case "athead":
+		k, ok := x.Args[0].(SNum)
+		if !ok || len(x.Args) != 2 {
+			return Val{}, nil, fmt.Errorf("athead(LOOP, expr) expects a loop ordinal")
+		}
+		for _, li := range e.loops {
+			if fmt.Sprint(li.ordinal) == k.Val {
+				if li.headSt == nil {
+					return Val{}, nil, fmt.Errorf("athead(%s, ..) used outside loop %s", k.Val, k.Val)
+				}
+				return sc.with(li.headSt).eval(x.Args[1])
+			}
+		}
+		return Val{}, nil, fmt.Errorf("athead: no loop %s", k.Val)
 	case "fresh":
 		v, _, err := arg(0)
 		if err != nil {
@@ -540,13 +554,13 @@ func (sc *SCtx) call(x SCall) (Val, types.Type, error) {
 		if sc.old == nil {
 			return Val{}, nil, fmt.Errorf("fresh() needs an old state")
 		}
-		return tv(And(Ge(v.T, sc.old.hwm), Lt(v.T, sc.st.hwm))), boolT, nil
+		return tv(And(Ge(e.root(v.T), sc.old.hwm), Lt(e.root(v.T), sc.st.hwm))), boolT, nil
 	case "allocated":
 		v, _, err := arg(0)
 		if err != nil {
 			return Val{}, nil, err
 		}
-		return tv(And(Lt(I(0), v.T), Lt(v.T, sc.st.hwm))), boolT, nil
+		return tv(And(Not(Eq(v.T, I(0))), Lt(e.root(v.T), sc.st.hwm))), boolT, nil
 	case "typeis":
 		v, _, err := arg(0)
 		if err != nil {
